@@ -59,6 +59,9 @@ class SimRaw(io.RawIOBase):
     def seekable(self):
         return False
 
+    def tell(self):
+        return self._f.tell()  # the position can be asked for (f.tell() after a dump), seeking cannot
+
     def fileno(self):
         # no descriptor is handed out: zero-copy shortcuts (shutil's sendfile path) would bypass the write events
         raise io.UnsupportedOperation("fileno")
